@@ -13,7 +13,7 @@ inductive ReadResult where
 deriving Repr, DecidableEq
 
 structure OS where
-  /-- `Path.resolve()`: none = raised (symlink loop, embedded NUL) -/
+  /-- `Path.resolve(strict=True)`: none = raised (missing component, symlink loop, embedded NUL, over-long name) -/
   resolve : Path → Option Path
   /-- `stat`-based kind of a path (follows symlinks) -/
   kind : Path → Kind
